@@ -24,7 +24,7 @@ ITERS = ['iter', 'drain', 'into_iter']
 # the implementation's observations, or equality with the model's step where the property IS that functional statement.
 PROPS = {
     'C01': dict(
-        comps=['mon_c01', 'fault'], corr_only=['fault'],
+        comps=['mon_c01', 'mon_c01_cur', 'fault'], corr_only=['fault'],
         theorems=['C01_bound', 'C01_arith', 'C01_total', 'C01_monitor_sound'],
         assumptions=['entry_size of every presented pair fits in usize (DESIGN.md 9.2)', '0 < size_of::<Entry<K,V>>() and size_of::<V>() <= size_of::<Entry<K,V>>()'],
     ),
@@ -81,7 +81,7 @@ PROPS = {
         comps=['res', 'drops', 'keyset', 'order', 'ents', 'sizes', 'cur', 'max', 'mon_c06'],
         ops=ITERS,
         comps_any=['api_order'],
-        theorems=['C12_split', 'C12_fused', 'C12_iter', 'C12_drain', 'C12_into_iter'],
+        theorems=['C12_split', 'C12_fused', 'C12_iter', 'C12_drain', 'C12_into_iter', 'C12_cursor', 'C12_taking', 'C12_taking_items'],
     ),
     'C13': dict(
         corr_only=['cap'],
